@@ -227,7 +227,8 @@ def fnNoJumpInHandlerOfTryWithFinally : Stmt → Bool
   | _ => true
 
 
-/-! ### The hypotheses of `C05_paths_partial` (evaluated by the driver for every program) -/
+/-! ### The `finally`-free fragment (the scope of `C05_paths_partial` before the induction step through `finally` was proved;
+kept for the statistics: the driver evaluates it for every program) and the key tags -/
 
 /-- Tags separating the two families of dictionary keys: section keys (`exits`, `continues`, `section_entry`) and
 conditional-section keys (`cond_entry`, `cond_leaves`).  The same AST node may key both families (a `while` that is the
@@ -357,7 +358,7 @@ def fnOwnSpec : Stmt → List (NodeId × List Nat)
 
 
 
-/-! ### The hypothesis of `C05_paths_partial` with `finally` (step 3) -/
+/-! ### The hypotheses of `C05_paths_partial` / `C05_paths`: the modelled language with `finally` -/
 
 def tnodes (l : List Nat) : List Nat := l.map nk
 
